@@ -899,6 +899,13 @@ class PipeWorld:
             if new.count(want) != 1 or len(new) != 1:
                 self.violate('C03', 'result_not_recorded_once', f'n={len(new)}',
                              f'reply {want} produced chronicle entries {new}')
+                # the same observation decides the first sentence of C18 and, for failures, the last clause of C05
+                self.violate('C18', 'completion_not_recorded_once', f'n={len(new)}:{status}',
+                             f'completed unit {want}: history entries appended by its completion: {new}')
+                if status != 'success':
+                    self.violate('C05', 'outcome_not_recorded', status, f'{alg}[{t}] {status}: history entries appended {new}, wanted exactly {want}')
+            else:
+                self.probes['completion_recorded_once'] += 1
         if msg.success is True:
             newvals = {v.split('.', 2)[2] for v, n in (msg.values or []) if n}
             owed = collections.defaultdict(set)
